@@ -560,6 +560,86 @@ theorem refresh_same_user_epoch (c : Cfg) (t : Int) (nfields : Nat) (second : Ra
       omega
     · exact ⟨tk, rt, hn, hs, hr1, hv, hr2, hr3, hr4, hsub, hr5, hs1, hs2⟩
 
+/-- **the pair tolerance is two seconds** (api/const.go EPSILON_EXPIRE_TS, regenerated): the two tokens of a pair
+are created back to back, and the expiry distance is the ONLY thing that identifies a pair — every second of
+tolerance is a second within which the tokens of two different sessions of a user are interchangeable. -/
+theorem pair_tolerance_is_two_seconds : srcCfg.eps = 2 ∧ srcCfg.pairDiff = 518400 := by decide
+
+/-- in the source configuration a successful `Refresh` had tokens whose expiry times differ from the expected
+distance (6 days) by at most 2 s -/
+theorem refresh_pair_distance_src (t : Int) (nfields : Nat) (second : Raw) (pcli : Bytes) (praw : Raw)
+    (σa σr : Secret → Bool) (out : RefreshOut)
+    (h : refresh srcCfg t nfields second pcli praw σa σr = .ok out) :
+    ∃ a r : Ident, verifyJwt srcCfg t (getJwt nfields second) false = .ok a ∧ verifyRefreshJwt srcCfg t praw = .ok r ∧
+      -2 ≤ r.exp - a.exp - 518400 ∧ r.exp - a.exp - 518400 ≤ 2 := by
+  unfold refresh at h
+  split at h
+  · cases h
+  · rename_i a ha
+    split at h
+    · cases h
+    · rename_i r hr
+      split at h
+      · cases h
+      · rename_i hd
+        simp only [Bool.or_eq_true, decide_eq_true_eq, not_or] at hd
+        have he := pair_tolerance_is_two_seconds
+        rw [he.1, he.2] at hd
+        exact ⟨a, r, ha, hr, by omega, by omega⟩
+
+/-- **cross-session pairs are refused**: the access token of a session opened at `t1` and the refresh token of a
+session opened at `t2`, more than ε apart, do not refresh — whoever the users are, whatever the signatures
+(times in the range of the int32 clock, `pairDiff` the difference of the two lifetimes). -/
+theorem refresh_rejects_cross_session_pair (c : Cfg) (t t1 t2 : Int) (u1 u2 cli1 cli2 pcli : Bytes)
+    (σ₁ σ₂ σa σr : Secret → Bool)
+    (hpd : c.pairDiff = c.ttlRefresh - c.ttlAccess)
+    (h1 : 0 ≤ t1) (h2 : 0 ≤ t2) (hA : 0 ≤ c.ttlAccess) (hR : 0 ≤ c.ttlRefresh)
+    (hm1 : t1 + c.ttlAccess < 2147483648) (hm2 : t2 + c.ttlRefresh < 2147483648)
+    (hfar : c.eps < t2 - t1 ∨ t2 - t1 < -c.eps) :
+    refresh c t 2 (.tok (createToken c t1 u1 cli1 σ₁).1) pcli (.tok (createRefreshToken c t2 u2 cli2 σ₂).1) σa σr
+      = .error .invalidToken := by
+  have ea : (createToken c t1 u1 cli1 σ₁).1.exp = .num (t1 + c.ttlAccess) false := by
+    simp [createToken, srvNow, toTime4_of_range h1 (by omega), toTime4_of_range hA (by omega), toTime4_of_range (by omega : 0 ≤ t1 + c.ttlAccess) hm1]
+  have er : (createRefreshToken c t2 u2 cli2 σ₂).1.exp = .num (t2 + c.ttlRefresh) false := by
+    simp [createRefreshToken, srvNow, toTime4_of_range h2 (by omega), toTime4_of_range hR (by omega), toTime4_of_range (by omega : 0 ≤ t2 + c.ttlRefresh) hm2]
+  cases hres : refresh c t 2 (.tok (createToken c t1 u1 cli1 σ₁).1) pcli (.tok (createRefreshToken c t2 u2 cli2 σ₂).1) σa σr with
+  | error e =>
+    unfold refresh at hres
+    split at hres
+    · cases hres; rfl
+    · split at hres
+      · cases hres; rfl
+      · split at hres
+        · cases hres; rfl
+        · split at hres
+          · cases hres; rfl
+          · split at hres
+            · cases hres; rfl
+            · cases hres
+  | ok out =>
+    exfalso
+    obtain ⟨a, r, _, _, hr, ha, ⟨hd1, hd2⟩, _⟩ := refresh_same_user c t 2 _ pcli _ σa σr out hres
+    rcases hr with ⟨hr, _⟩ | ⟨rt, hrt, _, _, _, _, _, hrexp⟩
+    · cases hr
+    · rcases ha with ⟨ha, _⟩ | ⟨tk, _, htk, _, _, _, _, haexp⟩
+      · simp [getJwt] at ha
+      · cases hrt; cases htk
+        rw [er] at hrexp; rw [ea] at haexp
+        simp [claimInt] at hrexp haexp
+        omega
+
+/-- witness: with the tolerance raised to 60 s, alice's access token of 12:00:00 and her refresh token of
+12:00:30 — two different sessions — refresh; with the source's 2 s they do not. -/
+theorem wide_tolerance_merges_sessions :
+    let alice : Bytes := [97, 108, 105, 99, 101]
+    let σ₁ : Secret → Bool := fun k => k == srcCfg.sAccess
+    let σ₂ : Secret → Bool := fun k => k == srcCfg.sRefresh
+    let acc := (createToken srcCfg 1800000000 alice [] σ₁).1
+    let ref := (createRefreshToken srcCfg 1800000030 alice [] σ₂).1
+    (∃ out, refresh { srcCfg with eps := 60 } 1800000040 2 (.tok acc) [] (.tok ref) σ₁ σ₂ = .ok out ∧ out.user = alice) ∧
+    refresh srcCfg 1800000040 2 (.tok acc) [] (.tok ref) σ₁ σ₂ = .error .invalidToken := by
+  exact ⟨⟨_, rfl, rfl⟩, rfl⟩
+
 /-- RECORDED (configuration): `VerifyJwt("")` and `VerifyRefreshJwt("")` both answer "guest, no error", so a
 `Refresh` that carries NO token at all is turned down only by the expiry-distance test, i.e. only because the
 two configured lifetimes differ by more than ε (`source_constants`).  Witness: in the source configuration
